@@ -23,6 +23,12 @@ def collect(tag, rounds=3):
         subprocess.run(["/venv/bin/python", "-m", "pytest", "-q", "-p", "no:cacheprovider", "-p", "harness.recorder_plugin",
                         "--timeout=900"] + [t for t in TESTS if os.path.exists(os.path.join(repo, t))],
                        cwd=repo, env=env, stdout=subprocess.DEVNULL, stderr=subprocess.DEVNULL, timeout=1800)
+    # ... and the documentation notebooks (doc/*.ipynb), cell by cell, under the same recorder
+    doc = os.path.join(repo, "doc") if os.path.isdir(os.path.join(repo, "doc")) else "/repo/doc"
+    nbs = [os.path.join(doc, f) for f in ("PauliAlgebra.ipynb", "Stabilizer.ipynb", "Circuit.ipynb", "SBRG.ipynb") if os.path.exists(os.path.join(doc, f))]
+    if nbs:
+        subprocess.run(["/venv/bin/python", "-m", "harness.nbrun"] + nbs, cwd=VERIF, env=env, stdout=subprocess.DEVNULL,
+                       stderr=subprocess.DEVNULL, timeout=1800)
     out = {}
     for fam in ("c01", "clifford", "stab"):
         p = os.path.join(d, fam + ".ndjson")
